@@ -36,7 +36,8 @@ BASES = {
     "Content-Type": ["application/json; charset=utf-8", 'multipart/form-data; boundary="bnd"', "application/x-www-form-urlencoded; charset=latin-1", "text/plain"],
     "Content-Length": ["12", "0"],
     "Cookie": ['a=1; b="x\\073y"; c=%20', "sid=abc", 'q="un\\"q"'],
-    "Date": ["Tue, 15 Nov 1994 08:12:31 GMT", "Sunday, 06-Nov-94 08:49:37 GMT"],
+    "Date": ["Tue, 15 Nov 1994 08:12:31 GMT", "Sunday, 06-Nov-94 08:49:37 GMT", "Fri, 31 Dec 9999 23:59:59 -0100", "Mon, 01 Jan 0001 00:00:00 +0100", "Fri, 31 Dec 9999 23:00:00 EST",
+             "Tue, 15 Nov 1994 08:12:31 +2359", "Tue, 15 Nov 1994 08:12:31 -9999"],  # dates at the ends of the calendar with offsets that push them over
     "Referer": ["https://user:pw@example.com:8080/p?q=1#f", "http://[::1]:80/", "/relative"],
     "Host": ["example.com", "example.com:8080", "[::1]:8000", "xn--bcher-kva.example.com", "xn--zzzzzz.example.com"],  # the last two: a valid and a malformed internationalised label
     "Range": ["bytes=0-3", "bytes=0-1, 4-", "bytes=-2"],
@@ -392,6 +393,10 @@ def special_bodies():
     for b in ("", '""', "(", "[", "\\", "*", "b" * 3000, "é", "a b", "--", "\\d+", "\xe2\x80\x94x", "\xc5\x91", "b\xe4\xb8\xadd", "\xf0\x9f\x98\x80"):
         yield f"multipart/form-data; boundary={b}", MP_BASE, "form"
         yield f"multipart/form-data; boundary={b}", MP_BASE.replace(b"bnd", b.encode("latin-1")), "form"
+    for ext in ("boundary*=utf-8''%E2%82%AC", "boundary*=utf-8''bnd", "boundary*=nonsense''bnd", "boundary*=utf-8'en'%FF", "boundary*0=bn; boundary*1=d", "boundary=bnd; boundary*=utf-8''%E4%B8%AD",
+                "boundary*=''", "boundary*=utf-8", "boundary*=utf-8'", "charset*=utf-8''utf-8; boundary=bnd", "boundary=bnd; charset*=x''%00"):
+        yield f"multipart/form-data; {ext}", MP_BASE, "form"
+        yield f"application/json; {ext.replace('boundary', 'charset')}", JSON_BASE, "json"
     yield "multipart/form-data", MP_BASE, "form"
     yield "multipart/form-data; boundary=bnd", b"--bnd\r\nno colon here\r\n\r\nx\r\n--bnd--\r\n", "form"
     yield "multipart/form-data; boundary=bnd", b"--bnd\r\nContent-Disposition\r\n\r\nx\r\n--bnd--\r\n", "form"
@@ -410,6 +415,53 @@ def special_bodies():
 
 
 # ---------------------------------------------------------------------------------------------------------------
+def protocol_only_sinks(r):
+    """The stream helpers with an upload sink that implements exactly the documented interface (constructor, write/seek or
+    awrite/aseek - nothing else) on bodies that go wrong after an upload part: the error is the 4xx, not an AttributeError."""
+    from baize.multipart_helper import parse_stream, parse_async_stream
+    from ..core.vloop import run_coro
+
+    class Sink:
+        def __init__(self, filename, headers):
+            self.filename, self.headers, self.data = filename, headers, bytearray()
+
+        def write(self, data):
+            self.data += data
+
+        def seek(self, off):
+            pass
+
+    class ASink(Sink):
+        async def awrite(self, data):
+            self.data += data
+
+        async def aseek(self, off):
+            pass
+    up = b'--bnd\r\nContent-Disposition: form-data; name="u"; filename="a.bin"\r\n\r\nDATA\r\n'
+    up_open = b'--bnd\r\nContent-Disposition: form-data; name="u"; filename="a.bin"\r\n\r\nDA'
+    fld = b'--bnd\r\nContent-Disposition: form-data; name="f"\r\n\r\nvalue\r\n'
+    bodies = {"bad header line after an upload": up + b"--bnd\r\nno colon here\r\n\r\nx\r\n--bnd--\r\n", "part without disposition after an upload": up + b"--bnd\r\nContent-Type: text/plain\r\n\r\nx\r\n--bnd--\r\n",
+              "too many parts": up + fld + fld + b"--bnd--\r\n", "oversized field after an upload": up + fld.replace(b"value", b"v" * 500) + b"--bnd--\r\n", "bad line inside an open upload": up_open + b"\r\n--bnd\r\nbroken\r\n\r\n",
+              "truncated inside an upload": up_open, "undecodable header after an upload": up + b"--bnd\r\n\xff\xfe: x\r\n\r\nx\r\n--bnd--\r\n", "fine": up + fld + b"--bnd--\r\n"}
+    for label, body in bodies.items():
+        for chunks in ([body], [body[:30], body[30:]], [body[i:i + 9] for i in range(0, len(body), 9)]):
+            for mode in ("sync", "async"):
+                r.count("evaluations")
+                r.count("distinct_nontrivial")
+                try:
+                    if mode == "sync":
+                        parse_stream(iter(chunks), b"bnd", "utf-8", file_factory=Sink, max_form_parts=2, max_form_memory_size=100)
+                    else:
+                        async def gen():
+                            for c in chunks:
+                                yield c
+                        run_coro(parse_async_stream(gen(), b"bnd", "utf-8", file_factory=ASink, max_form_parts=2, max_form_memory_size=100))
+                except Exception as e:  # noqa
+                    if not allowed(e):
+                        report(r, "parse_stream" if mode == "sync" else "parse_async_stream", "helper", e, {"kind": "sinks", "label": label}, f"a protocol-only upload sink, body: {label}")
+    r.sample({"sinks": list(bodies)})
+
+
 def vanished(r):
     """One application object; a path is requested, then the file system changes under it (file removed, replaced by a
     directory, its directory removed, directory replaced by a file, permissions withdrawn), then the same path is requested again:
@@ -537,6 +589,7 @@ def run_shard(desc, tier):
             t.close()
     elif kind == "vanished":
         vanished(r)
+        protocol_only_sinks(r)
     elif kind == "queries":
         t = Tree()
         try:
@@ -638,6 +691,8 @@ def replay(w):
             probe_body(r, w["ctype"], b, w["accessor"], chunks=[b[:1], b[1:len(b) // 2], b"", b[len(b) // 2:]])
     elif k == "vanished":
         vanished(r)
+    elif k == "sinks":
+        protocol_only_sinks(r)
     elif k == "body-under-header":
         probe_body_under_header(r, w["name"], w["value"])
     elif k == "query-dispatch":
